@@ -440,7 +440,10 @@ Definition close_one (h : hub) (sid : N) : hub * list out :=
       (* virtual session: table entry goes, the backend is told when it was in a room *)
       match s.(s_kind) with
       | KVirtual p v =>
-          let h10 := set_vtable h9 (pdel h9.(h_vtable) (p, v)) in
+          (* the table entry goes unless a newer session with the same id replaced this one already *)
+          let h10 := match pget h9.(h_vtable) (p, v) with
+                     | Some x => if N.eqb x sid then set_vtable h9 (pdel h9.(h_vtable) (p, v)) else h9
+                     | None => h9 end in
           (h10, outs1 ++ outs2 ++ match room with
                                    | Some k => [ToBackend (s.(s_backend), 2, 3, snd k, sid, 1)]
                                    | None => [] end)
@@ -744,16 +747,14 @@ Definition revoke (h : hub) (sid : N) : hub * list out :=
   | Some s =>
       let p := s.(s_perms) in
       let media_of tok := match aget s.(s_pubmedia) tok with Some m => m | None => 0 end in
-      let video_bad := match aget s.(s_pubs) 1 with
-                       | Some tok => negb (has_perm p P_MEDIA) &&
-                                     ((N.testbit (media_of tok) 0 && negb (has_perm p P_AUDIO)) ||
-                                      (N.testbit (media_of tok) 1 && negb (has_perm p P_VIDEO)))
-                       | None => false end in
-      let screen_bad := match aget s.(s_pubs) 2 with Some _ => negb (has_perm p P_SCREEN) | None => false end in
-      let toks := (if video_bad then match aget s.(s_pubs) 1 with Some t => [t] | None => [] end else []) ++
-                  (if screen_bad then match aget s.(s_pubs) 2 with Some t => [t] | None => [] end else []) in
-      let pubs := (if video_bad then adel s.(s_pubs) 1 else s.(s_pubs)) in
-      let pubs := (if screen_bad then adel pubs 2 else pubs) in
+      let bad (e : N * N) : bool :=
+        let '(stream, tok) := e in
+        if N.eqb stream 2 then negb (has_perm p P_SCREEN)
+        else negb (has_perm p P_MEDIA) &&
+             ((N.testbit (media_of tok) 0 && negb (has_perm p P_AUDIO)) ||
+              (N.testbit (media_of tok) 1 && negb (has_perm p P_VIDEO))) in
+      let toks := map snd (filter bad s.(s_pubs)) in
+      let pubs := filter (fun e => negb (bad e)) s.(s_pubs) in
       let h1 := put_sess h sid (sess_media s s.(s_incall) s.(s_flags) pubs s.(s_subs) s.(s_pubmedia)) in
       close_tokens h1 toks
   end.
@@ -776,7 +777,10 @@ Definition leave_call (h : hub) (sid : N) : hub * list out :=
 
 Definition set_incall (h : hub) (k : N * N) (sid : N) (on : bool) : hub :=
   match room_of h k with
-  | Some r => set_rooms h (pset h.(h_rooms) k (mkroom r.(r_members) (if on then nadd sid r.(r_incall) else nrem sid r.(r_incall)) r.(r_sessdata) r.(r_transient) r.(r_props)))
+  | Some r =>
+      (* only members of the room can be in its call *)
+      if on && negb (nmem sid r.(r_members)) then h
+      else set_rooms h (pset h.(h_rooms) k (mkroom r.(r_members) (if on then nadd sid r.(r_incall) else nrem sid r.(r_incall)) r.(r_sessdata) r.(r_transient) r.(r_props)))
   | None => h
   end.
 
@@ -979,11 +983,8 @@ Definition do_internal (h : hub) (c sid : N) (s : session) (q : internalreq) : h
       | None => (h, [])
       | Some r =>
           let vs := h.(h_nextsid) + 1 in
-          let h00 := set_nextsid h vs in
-          (* a virtual session with the same id is replaced *)
-          let '(h0, outs0) := match pget h00.(h_vtable) (sid, v) with
-                              | Some prev => close_one (set_vtable h00 (pdel h00.(h_vtable) (sid, v))) prev
-                              | None => (h00, []) end in
+          let h0 := set_nextsid h vs in
+          let prev := pget h0.(h_vtable) (sid, v) in
           let incallfeat := match s.(s_kind) with KInternal f _ => f | _ => false end in
           let ic := match incall with Some x => x | None => if incallfeat then 0 else 5 end in
           let fl := match flags with Some x => x | None => 0 end in
@@ -1000,7 +1001,9 @@ Definition do_internal (h : hub) (c sid : N) (s : session) (q : internalreq) : h
           let h7 := publish h6 (SubjRoom (fst k) (snd k)) (AEvent (SPart 0) 0 false) in
           let h8 := if N.eqb fl 0 then h7 else publish h7 (SubjRoom (fst k) (snd k)) (AEvent (SFlags vs fl) 0 false) in
           let h9 := publish h8 (SubjBackendRoom (fst k) (snd k)) (ASessionJoined vs false) in
-          (h9, outs0 ++ [ToBackend (s.(s_backend), 2, 2, rn, vs, 1)])
+          (* a virtual session with the same id is replaced: the previous one is closed once the new one joined *)
+          let '(h10, outs10) := match prev with Some pv => close_one h9 pv | None => (h9, []) end in
+          (h10, ToBackend (s.(s_backend), 2, 2, rn, vs, 1) :: outs10)
       end
   | IUpdate v rn flags incall =>
       let k := (s.(s_backend), rn) in
